@@ -67,7 +67,8 @@ def install(E):
         r = x + y if op == 'add' else (x - y if op == 'sub' else x * y)
         ok = E.in_range(r, ty)
         if mode == 'checked':
-            return mk_opt(E, ok, I(r if ok is True else E.wrap(r, ty), ty))
+            # the payload is only meaningful when Some, i.e. when r is in range
+            return mk_opt(E, ok, I(r, ty))
         if mode == 'wrapping':
             return I(E.wrap(r, ty), ty)
         if mode == 'overflowing':
@@ -264,8 +265,17 @@ def install(E):
                 return DIVERGE
             return (val(), g2)
         if name == 'unwrap_or':
+            if some is False:
+                return argv[1]
             return E.merge(some, val(), argv[1])
         if name == 'unwrap_or_default':
+            if some is False:
+                d0 = argv[1] if len(argv) > 1 else None
+                if inner_ty in INT_TYS:
+                    return I(0, inner_ty)
+                if inner_ty == 'bool':
+                    return B(False)
+                return NotImplemented
             v = val()
             if isinstance(v, I):
                 return I(If(some, v.t, 0), v.ty)
@@ -273,6 +283,8 @@ def install(E):
                 return B(If(some, v.t, False))
             return NotImplemented
         if name == 'ok_or':
+            if some is False:
+                return En('Result', 1, {1: [argv[1]]})
             return En('Result', If(some, 0, 1), {0: [val()], 1: [argv[1]]})
         if name in ('and_then', 'map', 'map_or', 'map_or_else', 'unwrap_or_else', 'ok_or_else', 'filter', 'or_else', 'is_some_and', 'is_none_or'):
             if some is False:
@@ -473,7 +485,7 @@ def install(E):
     def h_then_some(E, m, func, argv, guard, mem, dty, caller):
         b, v = argv
         return mk_opt(E, b.t, v)
-    reg(r'^(?:core::)?bool::then_some::<', h_then_some)
+    reg(r'^(?:core::)?bool::(?:<impl bool>::)?then_some::<', h_then_some)
 
     def h_then(E, m, func, argv, guard, mem, dty, caller):
         b, clo = argv
@@ -484,7 +496,7 @@ def install(E):
         if res is DIVERGE:
             return opt_none()
         return mk_opt(E, b.t, res[0])
-    reg(r'^(?:core::)?bool::then::<', h_then)
+    reg(r'^(?:core::)?bool::(?:<impl bool>::)?then::<', h_then)
 
     # ---- slices / Vec / iterators ---------------------------------------------------
     def seq_ref(E, v, mem, guard):
@@ -554,10 +566,9 @@ def install(E):
         """enumerate an iterator: list of (present_cond, value)"""
         if it.kind == 'slice':
             s = deref(E, it.inner, mem, guard)
-            n = seq_len(s)
             out = []
             for i in range(it.extra, len(seq_elems(s))):
-                pres = True if isinstance(s, Tup) else simp(zint(n) > i)
+                pres = True if isinstance(s, Tup) else simp(s.pres[i])
                 if pres is False:
                     continue
                 out.append((pres, Ref(it.inner.cell, it.inner.path + (('i', i),))))
@@ -602,17 +613,17 @@ def install(E):
             if it.kind == 'filter':
                 c = E.new_cell()
                 mem[c] = v
-                res = E.call_closure(it.clo, [Ref(c)], gi, mem)
+                res = E.cond_call_closure(it.clo, [Ref(c)], guard, p, mem)
                 if res is DIVERGE:
                     continue
                 out.append((simp(And(p, res[0].t)), v))
             elif it.kind == 'map':
-                res = E.call_closure(it.clo, [v], gi, mem)
+                res = E.cond_call_closure(it.clo, [v], guard, p, mem)
                 if res is DIVERGE:
                     continue
                 out.append((p, res[0]))
             elif it.kind == 'filter_map':
-                res = E.call_closure(it.clo, [v], gi, mem)
+                res = E.cond_call_closure(it.clo, [v], guard, p, mem)
                 if res is DIVERGE:
                     continue
                 o = res[0]
@@ -641,7 +652,9 @@ def install(E):
             tot = 0
             for p, v in its:
                 tot = tot + If(p, 1, 0)
-            return I(simp(tot) if not isinstance(tot, int) else tot, 'usize')
+            r = simp(tot) if not isinstance(tot, int) else tot
+            E.set_range(r, 0, len(its))
+            return I(r, 'usize')
         if name == 'sum':
             mm = re.search(r'::sum::<(\w+)>$', func)
             ty = mm.group(1) if mm else (dty or 'u64')
@@ -651,7 +664,8 @@ def install(E):
                 tot = tot + If(p, v.t, 0)
                 # `Sum for uN` inherits the caller's overflow checks: panics in the dev profile
                 E.panic(And(guard, Not(E.in_range(tot, ty))), 'attempt to add with overflow (iter::sum)', caller.fn.name)
-            return I(E.wrap(tot, ty), ty)
+            # overflow panics (recorded above), so the exact sum stands for the result
+            return I(tot, ty)
         if name in ('any', 'all'):
             clo = argv[1]
             acc = (name == 'all')
@@ -659,7 +673,7 @@ def install(E):
                 gi = simp(And(guard, p))
                 if gi is False:
                     continue
-                res = E.call_closure(clo, [v], gi, mem)
+                res = E.cond_call_closure(clo, [v], guard, p, mem)
                 if res is DIVERGE:
                     continue
                 if name == 'any':
@@ -766,6 +780,27 @@ def install(E):
         return NotImplemented
     reg(r'^<(?:std::ops::|core::ops::)?Range<\w+> as IntoIterator>::into_iter$', h_range_into_iter)
 
+    def h_retain(E, m, func, argv, guard, mem, dty, caller):
+        r, s = seq_ref(E, argv[0], mem, guard)
+        if not isinstance(s, Seq):
+            return NotImplemented
+        clo = argv[1]
+        keep = []
+        for i in range(len(s.elems)):
+            p = simp(s.pres[i])
+            if p is False:
+                keep.append(False)
+                continue
+            res = E.cond_call_closure(clo, [Ref(r.cell, r.path + (('i', i),))], guard, p, mem)
+            if res is DIVERGE:
+                keep.append(False)
+                continue
+            keep.append(simp(And(p, res[0].t)))
+        cur = deref(E, r, mem, guard)
+        mem[r.cell] = E.write_path(mem[r.cell], r.path, Seq(cur.elems, None, cur.ety, pres=keep), mem, guard, 'retain')
+        return UNIT
+    reg(r'^(?:std::vec::|alloc::vec::)?Vec::<.*>::retain::<', h_retain)
+
     def h_index(E, m, func, argv, guard, mem, dty, caller):
         r, s = seq_ref(E, argv[0], mem, guard)
         idx = argv[1]
@@ -783,6 +818,12 @@ def install(E):
         r = argv[0]
         v = deref(E, r, mem, guard)
         if isinstance(v, Adt) and v.base is not None:
+            fm = E.feature_model.get(v.base)
+            if fm is not None:
+                key = '%s_%s' % (kind, flag)
+                if key not in fm:
+                    raise Unsupported('feature %s not in the feature model of %s' % (key, v.base))
+                return B(fm[key])
             return B(z3.Bool('%s.%s_%s' % (v.base, kind, flag)))
         return NotImplemented
     reg(r'Features<.*>>::(supports|requires)_(\w+)$', h_features)
@@ -791,7 +832,7 @@ def install(E):
     def h_opaque(E, m, func, argv, guard, mem, dty, caller):
         return Opaque('fmt/log')
     reg(r'^core::fmt::|^std::fmt::|^alloc::fmt::|^core::fmt::rt::|Arguments::<.*>::new|^std::fmt::Arguments|'
-        r'^alloc::fmt::format|Record::<.*>::new|as Logger>::log$|^util::logger::Record|'
+        r'^alloc::fmt::format|Record::<.*>::new|as (?:[\w]+::)*Logger>::log$|^util::logger::Record|'
         r'^<.* as ToString>::to_string$|^<.* as (?:std::fmt::|core::fmt::)?(?:Display|Debug)>::fmt$|'
         r'WithContext|^std::string::String|^<str as ToOwned>::to_owned|^<&?str as Into<String>>::into|'
         r'^<String as From<&str>>::from', h_opaque)
@@ -804,6 +845,14 @@ def install(E):
                 return v
         return NotImplemented
     reg(r'^<&.* as (?:std::ops::)?Deref>::deref$', h_deref_ref)
+
+    # ---- Fn* traits: calling a closure through a reference ------------------------------
+    def h_fn_call(E, m, func, argv, guard, mem, dty, caller):
+        clo, args = argv[0], argv[1]
+        if not isinstance(args, Tup):
+            return NotImplemented
+        return E.call_closure(clo, list(args.fs), guard, mem)
+    reg(r' as (?:std::ops::|core::ops::)?Fn(?:Mut|Once)?<\(.*\)>>::call(?:_mut|_once)?$', h_fn_call)
 
     # ---- mem ------------------------------------------------------------------------
     def h_mem(E, m, func, argv, guard, mem, dty, caller):
